@@ -87,7 +87,7 @@ func main() {
 			}
 		}
 	} else if *pairs {
-		logs, vars = genPairs()
+		logs, vars = genPairs(*tier == "thorough")
 	} else {
 		r := hx.NewRng(*seed)
 		g := &gen{r: r}
@@ -279,7 +279,11 @@ func genVariants(r *hx.Rng, l *Log, idx int, tier string) []*Variant {
 
 // genPairs: every ordered pair of batchable command shapes, on one key and on two keys, after a
 // small preparation, applied (a) one per call and (b) in one batch-operator lifetime.
-func genPairs() ([]*Log, map[string][]*Variant) {
+func genPairs(thorough bool) ([]*Log, map[string][]*Variant) {
+	gaps := []int64{3 * sec}
+	if thorough {
+		gaps = []int64{1, 3 * sec}
+	}
 	shapes := func(k string) [][]string {
 		return [][]string{
 			{"set", k, "v1"}, {"set", k, "v2", "nx"}, {"set", k, "v3", "xx"}, {"set", k, "v4", "ex", "2"},
@@ -300,7 +304,7 @@ func genPairs() ([]*Log, map[string][]*Variant) {
 			for _, k2 := range []string{"t:a", "t:b", "t2:a"} {
 				for _, c1 := range shapes("t:a") {
 					for _, c2 := range shapes(k2) {
-						for _, gap := range []int64{1, 3 * sec} {
+						for _, gap := range gaps {
 							n++
 							l := &Log{ID: "Q" + strconv.Itoa(n), Policy: pol}
 							ts := int64(0)
